@@ -28,14 +28,14 @@ FRESH_PROCESS_PER_SHARD = True
 RULE = (
     "history leg: state = snapshot of flox's process-wide mutable state (structural dump of the aggregation registry, keys of "
     "flox.cache.cache, size of the cohort-tree lru_cache, digests of the caller-owned objects passed to every call) reached by a "
-    "sequence of API calls; transition = one real API call from a 26-call alphabet; BFS over all histories of length <= 2 (quick) / 3 "
+    "sequence of API calls; transition = one real API call from a 29-call alphabet; BFS over all histories of length <= 2 (quick) / 3 "
     "(thorough) from a fresh interpreter per first call; invariants on every transition: arguments and registry unchanged, result "
     "== result of that call made first in a fresh interpreter. co-computation leg: state = (base configuration, varied ingredient); "
     "transition = build both lazy results, merge, compute together in both orders and separately. "
     "Non-trivial = a history of length >= 2 / a pair that differs in exactly one ingredient."
 )
 ASSUMPTIONS = [
-    "the 26-call alphabet and depth 2 (quick) / 3 (thorough) bound the histories; state that none of these calls touches is not observed",
+    "the 29-call alphabet and depth 2 (quick) / 3 (thorough) bound the histories; state that none of these calls touches is not observed",
     "fresh-interpreter references are computed once per run in throw-away processes",
     "co-computed results: pairs and triples from 4 base configurations x 14 varied ingredients",
 ]
@@ -178,6 +178,10 @@ def alphabet():
     A["useragg-dask-int"] = lambda: red(_dask(I, ((2,), (2, 2, 2))), L, func=s["agg"], expected_groups=s["expected_list"], fill_value=-5)
     A["quantile-scalar"] = lambda: red(V, s["labels_seqA"], func="nanquantile", finalize_kwargs=dict(q=0.25))
     A["quantile-vector"] = lambda: red(V, s["labels_seqA"], func="nanquantile", finalize_kwargs=s["finalize_kwargs"])
+    A["median-single-group"] = lambda: red(V, np.zeros(6), func="nanmedian")
+    A["quantile-blockwise-one-group-per-block"] = lambda: red(_dask(V, ((2,), (2, 2, 2))), np.array([0, 0, 1, 1, 2, 2]), func="quantile", method="blockwise",
+                                                               finalize_kwargs=dict(q=0.5))
+    A["first-after-median"] = lambda: red(V, np.zeros(6), func="first")
     A["cohorts-sum-222"] = lambda: red(_dask(V, ((2,), (2, 2, 2))), L, func="nansum", method="cohorts")
     A["cohorts-sum-33"] = lambda: red(_dask(V, ((2,), (3, 3))), L, func="nansum", method="cohorts")
     A["cohorts-sum-111111-split2"] = lambda: _with_split(2, lambda: red(_dask(V, ((2,), (1,) * 6)), L, func="nansum", method="cohorts"))
@@ -221,7 +225,7 @@ def bounds(tier, seed):
 def alphabet_names():
     return ["sum-eager-expected", "sum-eager-mincount2", "nanmax-eager-fill0-index", "mean-dask-mapreduce", "var-dask-ddof0", "var-dask-ddof1",
             "nanargmax-cohorts", "count-dask-dtype", "useragg-eager-float", "useragg-dask-int", "quantile-scalar", "quantile-vector",
-            "cohorts-sum-222", "cohorts-sum-33", "cohorts-sum-111111-split2", "rechunk-blockwise-A", "rechunk-blockwise-B", "rechunk-cohorts",
+            "median-single-group", "quantile-blockwise-one-group-per-block", "first-after-median", "cohorts-sum-222", "cohorts-sum-33", "cohorts-sum-111111-split2", "rechunk-blockwise-A", "rechunk-blockwise-B", "rechunk-cohorts",
             "blockwise-sum-seqA", "blockwise-sum-seqB", "xarray-reduce-dataset", "xarray-rechunk", "scan-nancumsum-dask", "scan-ffill-eager",
             "sum-sorted-index", "nanfirst-int-dask"]
 
@@ -318,21 +322,26 @@ BASES = [
     dict(kind="reduce", func="nanquantile", method="blockwise", chunks=(3, 3), expected=False, fill=None, kwargs=dict(finalize_kwargs=dict(q=0.25)), seq=True),
     dict(kind="scan", func="nancumsum", chunks=(2, 2, 2)),
     dict(kind="reduce", func="sum", method=None, chunks=(2, 2, 2), expected=True, fill=0.0, kwargs={}),
+    dict(kind="reduce", func="nanmax", method="map-reduce", chunks=(3,), expected=True, fill=-1.0, kwargs=dict(axis=-1), labels2d=True),
 ]
 
 
 def variants(base):
     """(name, modified config) - each differs from the base in exactly one ingredient."""
-    out = [("values", dict(base, alt_values=True)), ("labels", dict(base, alt_labels=True)), ("chunking", dict(base, chunks=(3, 3) if base["chunks"] != (3, 3) else (2, 2, 2)))]
+    out = [("values", dict(base, alt_values=True)), ("labels", dict(base, alt_labels=True)),
+           ("chunking", dict(base, chunks=((3, 3) if base["chunks"] != (3, 3) else (2, 2, 2)) if not base.get("labels2d") else (1, 2)))]
     if base["kind"] == "scan":
         out += [("func", dict(base, func="ffill")), ("func2", dict(base, func="bfill"))]
         return out
     kw = base["kwargs"]
+    if base.get("labels2d"):
+        out.append(("axis", dict(base, kwargs=dict(kw, axis=None))))
+        out.append(("axis2", dict(base, kwargs=dict(kw, axis=(-2, -1)))))
     if "finalize_kwargs" in kw and "ddof" in kw["finalize_kwargs"]:
         out.append(("ddof", dict(base, kwargs=dict(kw, finalize_kwargs=dict(ddof=1)))))
     if "finalize_kwargs" in kw and "q" in kw["finalize_kwargs"]:
         out.append(("q", dict(base, kwargs=dict(kw, finalize_kwargs=dict(q=0.75)))))
-    out.append(("func", dict(base, func={"nanvar": "nanstd", "nanargmax": "nanargmin", "nanquantile": "nanmedian", "sum": "nansum"}[base["func"]],
+    out.append(("func", dict(base, func={"nanvar": "nanstd", "nanargmax": "nanargmin", "nanquantile": "nanmedian", "sum": "nansum", "nanmax": "nanmin"}[base["func"]],
                              kwargs={} if base["func"] == "nanquantile" else kw)))
     out.append(("min_count", dict(base, kwargs=dict(kw, min_count=3))))
     if base["expected"]:
@@ -355,6 +364,17 @@ def build_lazy(cfg):
     L = s["labels_seqA"].astype(float) if cfg.get("seq") else s["labels"]
     if cfg.get("alt_labels"):
         L = L[::-1].copy() if not cfg.get("seq") else s["labels_seqB"].astype(float)
+    if cfg.get("labels2d"):
+        V3 = np.stack([V[:, :3], V[:, 3:]], axis=1) * (1.0)  # (2, 2, 3)
+        L2 = np.array([[0.0, 1.0, 0.0], [1.0, 2.0, NAN]])
+        if cfg.get("alt_labels"):
+            L2 = L2[::-1].copy()
+        kw = dict(cfg["kwargs"], func=cfg["func"], method=cfg["method"])
+        kw["expected_groups"] = np.array([0.0, 1.0, 2.0, 3.0] if not cfg.get("alt_expected") else [0.0, 1.0, 2.0, 4.0])
+        kw["fill_value"] = cfg["fill"]
+        chunks3 = ((2,), (1, 1), cfg["chunks"] if sum(cfg["chunks"]) == 3 else (1, 2))
+        r, *g = flox.groupby_reduce(_dask(V3, chunks3), L2, **kw)
+        return (r,)
     if cfg["kind"] == "scan":
         if cfg["func"] == "nancumsum":
             L = np.where(np.isnan(L), 2.0, L)
